@@ -25,7 +25,12 @@ type GEdge struct {
 	W  int
 }
 
+// NodeIndex is a NAMED map type: the same map object may sit in a field of
+// this type and in one of the unnamed type map[string]*GNode.
+type NodeIndex map[string]*GNode
+
 type GNode struct {
+	seq    int // unexported and FIRST: the exported references after it are still the copier's business
 	ID     int
 	Edges  []GEdge
 	Duo    [2]GEdge
@@ -34,6 +39,7 @@ type GNode struct {
 	Kids   []*GNode
 	Pair   [2]*GNode
 	ByName map[string]*GNode
+	Idx    NodeIndex // may be the very map ByName (here or in another node) holds
 	Any    interface{}
 	Attrs  map[string]interface{}
 	Leaf   *GLeaf
@@ -80,6 +86,7 @@ type TDesc struct {
 }
 
 type GLeaf struct {
+	gen  int
 	Back *GNode
 	Tags map[string]int
 	N    *int
@@ -129,6 +136,7 @@ type NodeDesc struct {
 	Kids     []int              `json:"kids,omitempty"`
 	Pair     [2]int             `json:"pair"`
 	ByName   int                `json:"by_name"`
+	IdxP1    int                `json:"idx_p1,omitempty"` // node-map pool index + 1 held in the NAMED map type field
 	Any      AnyDesc            `json:"any"`
 	HasAttrs bool               `json:"has_attrs,omitempty"`
 	Attrs    map[string]AnyDesc `json:"attrs,omitempty"`
@@ -293,6 +301,9 @@ func genGraph(t *rapid.T) GraphDesc {
 		}
 		if nm > 0 && rapid.Bool().Draw(t, "has_byname") {
 			nd.ByName = rapid.IntRange(0, nm-1).Draw(t, "byname")
+		}
+		if nm > 0 && rapid.Bool().Draw(t, "has_idx") {
+			nd.IdxP1 = rapid.IntRange(0, nm-1).Draw(t, "idx") + 1
 		}
 		nd.Any = genAny(t, n, nm, i, "any")
 		if len(g.PSlices) > 0 && rapid.Bool().Draw(t, "has_ps") {
@@ -566,11 +577,15 @@ func instantiate(g GraphDesc) *graphInst {
 		if nd.ByName >= 0 && nd.ByName < len(gi.nodeMaps) {
 			n.ByName = gi.nodeMaps[nd.ByName]
 		}
+		if k := nd.IdxP1 - 1; k >= 0 && k < len(gi.nodeMaps) {
+			n.Idx = NodeIndex(gi.nodeMaps[k]) // the same map object under a named type
+		}
+		n.seq = i + 100
 		if nd.HasAttrs {
 			n.Attrs = map[string]interface{}{}
 		}
 		if nd.Leaf != nil {
-			l := &GLeaf{Back: gi.node(nd.Leaf.Back)}
+			l := &GLeaf{Back: gi.node(nd.Leaf.Back), gen: i + 7}
 			if nd.Leaf.Tags >= 0 && nd.Leaf.Tags < len(gi.tagMaps) {
 				l.Tags = gi.tagMaps[nd.Leaf.Tags]
 			}
@@ -908,6 +923,11 @@ func hasCycle(g GraphDesc) (cycle, viaIface bool) {
 		if nd.Leaf != nil {
 			add(i, nd.Leaf.Back, false)
 		}
+		if k := nd.IdxP1 - 1; k >= 0 && k < len(g.NodeMaps) {
+			for _, v := range g.NodeMaps[k] {
+				add(i, v, false)
+			}
+		}
 		for _, j := range anyTargets(nd.Any) {
 			add(i, j, true)
 		}
@@ -1165,7 +1185,7 @@ func (l *lazySource) Value(_ context.Context, t *dials.Type) (reflect.Value, err
 func TestC03Graphs(t *testing.T) {
 	vrt.Check(t, vrt.Prop[C03Case]{
 		ID: "C03", Name: "graphs",
-		Rule: "object graphs of 0..8 nodes over the fixed family GNode/GLeaf/GRoot/TNode (TNode implements encoding.TextUnmarshaler and has exported pointer / map / slice fields, so it can point at itself) with arbitrary edges through struct-field pointers (one of them an exported field tagged dials:\"-\", which stacking skips but the copy must still reproduce), slices, arrays, maps, maps whose values are slices / maps shared with other fields, shared maps / *int, pointers to slices / maps / pointers shared between nodes, back-references to the config root itself, and interface payloads (typed nil map / slice / pointer, *GNode, GNode by value, a struct by value with unexported fields, a time.Time, map[string]*GNode, []*GNode, [1]*GNode, []interface{}, a node's own Attrs map); " +
+		Rule: "object graphs of 0..8 nodes over the fixed family GNode/GLeaf/GRoot/TNode (TNode implements encoding.TextUnmarshaler and has exported pointer / map / slice fields, so it can point at itself) with arbitrary edges through struct-field pointers (one of them an exported field tagged dials:\"-\", which stacking skips but the copy must still reproduce), slices, arrays, maps, maps whose values are slices / maps shared with other fields, shared maps (also one map object held under a named and an unnamed map type) / *int, unexported fields declared before the exported references, pointers to slices / maps / pointers shared between nodes, back-references to the config root itself, and interface payloads (typed nil map / slice / pointer, *GNode, GNode by value, a struct by value with unexported fields, a time.Time, map[string]*GNode, []*GNode, [1]*GNode, []interface{}, a node's own Attrs map); " +
 			"copied directly by the deep copier (root *GNode or *GRoot), by Config with the graph in defaults and in one or two source values (both may set the same interface-typed field, with payloads of the same or different types), and by a watcher re-stack; oracle: terminates, reflect.DeepEqual, and the in->out map of pointer/map references in fields, elements and map values is a function with a fresh range; " +
 			"non-trivial = the graph has a cycle or a reference with in-degree >= 2; distinct = distinct case JSON",
 		Assumptions: []string{
